@@ -11,6 +11,7 @@ import (
 	"verifharness/internal/mboxfs"
 	"verifharness/internal/msgh"
 	"verifharness/internal/posrep"
+	"verifharness/internal/telneth"
 	"verifharness/internal/urlh"
 )
 
@@ -32,6 +33,7 @@ var cmds = map[string]func([]string) int{
 	"b2f-c03":       b2f.MainC03,
 	"b2f-c03-child": b2f.MainC03Child,
 	"posrep":        posrep.Main,
+	"telnet":        telneth.Main,
 	"url":           urlh.Main,
 }
 
